@@ -14,7 +14,9 @@ REQUIRED_THEOREMS = ["send_only_with_credit", "sequence_numbers_consecutive_from
 RULE = ("cases = closed-loop link partner (sequence advertisement, LCRD A-D, LGOOD per received header after a random "
         "delay, LBAD for a randomly 'corrupted' header followed by ignoring until our LRTY) + protocol layer queue "
         "timing + source back-pressure + lrty_pending timing + link down/up; 'chaos' partner: wrong credit letters, "
-        "wrong / duplicate / early LGOODs, unsolicited LBAD/LRTY/LGO_U, corrupted command words; three credit time-outs")
+        "wrong / duplicate / early LGOODs, unsolicited LBAD/LRTY/LGO_U, corrupted command words; three credit time-outs; "
+        "extra column env_r (Lean driver only) = the environment hypothesis EnvStepR of the retransmission theorem, "
+        "expected to be 1 in every link-up cycle until the monitor sees the partner leave the environment")
 ASSUMPTIONS = [
     "data_sink idle (valid = 0): DATA headers are followed by a zero-length or aborted payload; payload streaming is C36",
     "model = the REPAIRED transmitter (fix b52a16f, /repo main 1908059)",
@@ -36,9 +38,9 @@ IN_NAMES = ["sink_valid", "sink_data", "sink_ctrl", "source_ready", "enable", "q
             "q_dw3", "lrty_pending"]
 OUT_NAMES = ["source_valid", "source_data", "source_ctrl", "queue_ready", "bringup_complete", "link_command_received",
              "retry_received", "retry_required", "recovery_required", "lgo_received", "lgo_target",
-             "credits_available", "packets_to_send"]
+             "credits_available", "packets_to_send", "env_r"]
 (I_SV, I_SD, I_SC, I_RDY, I_EN, I_QV, I_Q0, I_Q1, I_Q2, I_Q3, I_LRTY) = range(11)
-(O_SV, O_SD, O_SC, O_QR, O_BR, O_LCR, O_RRX, O_RRQ, O_REC, O_LGO, O_LGT, O_CR, O_PTS) = range(13)
+(O_SV, O_SD, O_SC, O_QR, O_BR, O_LCR, O_RRX, O_RRQ, O_REC, O_LGO, O_LGT, O_CR, O_PTS, O_ENVR) = range(14)
 FREQS = {41: 8e3, 201: 40e3, 625001: 125e6}
 
 
@@ -241,12 +243,18 @@ class Monitor:
         self.fails = []
         self.tags = set()
         self.timeout = timeout
+        self.stop_t = None       # cycle in which the partner left the environment / the link went down
 
     def fail(self, t, sig, what):
         if len(self.fails) < 4:
             self.fails.append({"cycle": t, "sig": sig, "what": what})
 
     def run(self, irows, orows):
+        for t in self._run(irows, orows):
+            self.stop_t = t
+
+    def _run(self, irows, orows):
+        """generator: yields the cycle in which the monitor stops (nothing if it runs to the end)"""
         n = len(irows)
         # ---- link commands arriving on the sink (detector framing): word cycle -> (cmd, sub)
         lc_at = {}
@@ -273,6 +281,7 @@ class Monitor:
         cur_start = None
         retry = None             # dict(list=[indices], pos, since) after an LBAD
         first_tx = 0             # index of the next header that has never been transmitted
+        last_lbad = -1           # cycle of the last LBAD (retry_required)
         for t in range(n):
             i, o = irows[t], orows[t]
             # -- effects of the link command whose word was on the sink in the previous cycle
@@ -291,6 +300,7 @@ class Monitor:
                                 # more credits than the partner has buffers: outside the environment (the four
                                 # transmit buffers would be overwritten)
                                 self.tags.add("env:more-credits-than-buffers")
+                                yield t
                                 return
                         self.tags.add("credit")
                     else:
@@ -305,14 +315,22 @@ class Monitor:
                             pending.append(("bring", sub))
                     elif sub == next_ack:
                         next_ack = (next_ack + 1) % 8
-                        if retired < len(accepted) and accepted[retired]["sent"]:
+                        if retired < len(accepted) and accepted[retired]["ack_ok"]:
                             pending.append(("retire", None))
                             self.tags.add("retire")
+                        elif retired < len(accepted) and accepted[retired]["sent"]:
+                            # acknowledgements are in order and precede an LBAD: after an LBAD a conforming partner
+                            # acknowledges a header only once it has been retransmitted (EnvStepR.ackSent)
+                            self.tags.add("env:lgood-before-retransmission")
+                            yield t
+                            return
                         elif retired < len(accepted):
                             self.tags.add("env:lgood-for-unsent-header")
+                            yield t
                             return
                         else:
                             self.tags.add("env:lgood-nothing-outstanding")
+                            yield t
                             return
                     else:
                         want["rec"] = 1
@@ -333,6 +351,7 @@ class Monitor:
                 self.tags.add("recovery:timeout")
             if want["rec"]:
                 self.tags.add("env:mismatch-recovery-requested")   # the link goes to Recovery: nothing more to check
+                yield t
                 return
             # -- queue: only with credit, only after bring-up
             if o[O_QR] and not (bring and credits_rx - len(accepted) > 0):
@@ -342,7 +361,7 @@ class Monitor:
                 self.fail(t, "bringup", "bringup_complete=%d, expected %d" % (o[O_BR], bring))
             if o[O_QR] and i[I_QV]:
                 k = len(accepted)
-                accepted.append({"w": (i[I_Q0], i[I_Q1], i[I_Q2]), "f": fields(i[I_Q3]), "k": k, "sent": 0})
+                accepted.append({"w": (i[I_Q0], i[I_Q1], i[I_Q2]), "f": fields(i[I_Q3]), "k": k, "sent": 0, "ack_ok": 0})
                 self.tags.add("accept")
             # -- transmitted headers
             if o[O_SV] and i[I_RDY]:
@@ -360,6 +379,8 @@ class Monitor:
                                 if a["k"] == first_tx:
                                     first_tx += 1
                                 a["sent"] += 1
+                                if cur_start is not None and cur_start > last_lbad:
+                                    a["ack_ok"] = 1      # put on the wire (again) since the last LBAD
                         if retry is not None and cur_start is not None and cur_start > retry["since"]:
                             retry["pos"] += 1
                             if retry["pos"] >= len(retry["list"]):
@@ -369,6 +390,9 @@ class Monitor:
                 cur_start = t - 1          # the cycle in which the raw transmitter latched this header
             # -- registered effects
             if want["rrq"] and i[I_EN]:
+                last_lbad = t
+                for a in accepted[retired:]:
+                    a["ack_ok"] = 0
                 lst = [a["k"] for a in accepted[retired:]]
                 retry = {"list": lst, "pos": 0, "since": t} if lst else None
                 if lst:
@@ -383,6 +407,7 @@ class Monitor:
                 # link re-entry of the transmitter is outside C39 (its FSM / raw transmitter are not reset by
                 # ~enable: a header in flight is completed after re-entry and its `done` is taken for the next one)
                 self.tags.add("link-down:monitor-stops")
+                yield t
                 return
             if not i[I_EN]:
                 bring, adv, credits_rx, next_letter, accepted, retired, retry, first_tx = False, None, 0, 0, [], 0, None, 0
@@ -458,5 +483,9 @@ def run_case(desc):
         ptags = p.tags
     mon = Monitor(timeout)
     mon.run(lean_rows, orows)
+    # env_r (computed by the Lean driver only): the environment hypothesis EnvStepR of the retransmission theorem must
+    # hold in every cycle in which the link is up and the monitor still considers the partner within the environment
+    stop = len(lean_rows) if mon.stop_t is None else mon.stop_t
+    orows = [list(r) + [1 if (t < stop and lean_rows[t][I_EN]) else None] for t, r in enumerate(orows)]
     tags = sorted(mon.tags | ptags | {"mode:" + desc.get("mode", "replay"), "timeout=%d" % timeout})
     return Case([timeout, 1 << timeout.bit_length()], lean_rows, [list(r) for r in orows], mon.fails, tags, desc, IN_NAMES, OUT_NAMES)
